@@ -43,6 +43,8 @@ fn keyframe_sets() -> Vec<Vec<Kf>> {
         // extreme but finite values (the statement only asks for finite values)
         vec![kf(0.0, Some(-f32::MAX), Some(i32::MIN), None), kf(1.0, Some(f32::MAX), Some(2147483520), None)],
         vec![kf(0.25, Some(3.0e38), Some(-2147483520), Some(1)), kf(0.75, Some(-3.0e38), Some(2147483520), None)],
+        // properties resting at exactly zero between two keyframes (f32 and f64; +0 and -0), first keyframe not at 0%
+        vec![Kf { pos: 0.25, a: Some(0.0), k: Some(0), d: Some(0.0), easing: None }, Kf { pos: 0.75, a: Some(-0.0), k: Some(0), d: Some(-0.0), easing: Some(1) }, Kf { pos: 1.0, a: Some(5.0), k: Some(5), d: Some(5.0), easing: None }],
         // keyframes a subnormal distance apart (distinct positions whose gap has no finite reciprocal)
         vec![kf(0.0, Some(0.0), Some(0), None), kf(1.0e-40, Some(100.0), Some(100), None), kf(1.0, Some(50.0), Some(50), None)],
         vec![kf(0.0, Some(-7.0), None, Some(1)), kf(f32::from_bits(1), Some(7.0), Some(3), None), kf(0.5, Some(1.0), Some(-3), None)],
@@ -443,7 +445,7 @@ pub fn run(run: Run) -> ! {
     cov.insert("traces_validated_against_impl".into(), json!(debug_compared));
     cov.insert("evaluations".into(), json!(acc.ops));
     cov.insert("distinct_nontrivial".into(), json!(items.len()));
-    cov.insert("rule".into(), json!("cycle in {1.4e-45 and 1e-40 (subnormal),MIN_POSITIVE,1e-30,1e-3,1,1e3,1e30,2e38,f32::MAX} x delay in {0,1e-30,1,1e30} x repeat in {None,Times 0,1,2^24,2^24+1,u32::MAX-1,u32::MAX,Infinite} x reverse, restricted to configurations whose total duration is <= f32::MAX (validity bound), x 16 keyframe sets (three with a cluster of keyframes on consecutive f32 values inserted out of order; two with keyframes a subnormal distance apart: positions 0 / 1e-40 and 0 / 1.4e-45; two with extreme finite values: +-f32::MAX, +-3e38, i32::MIN..2147483520; three with 257, 513 and 300 keyframes, the last alternating between +-1e36 / +-2e9); operations: build, duration, delay, cycle_duration, repeat, start_with, update (plain and after start_with) at {0, MIN_POSITIVE, delay, every phase boundary +-0,1,2 ulp incl. the last cycles, 32 points inside the first two cycles, 1e30, f32::MAX}; the empty merged timeline (metadata finite); a rotation family (struct with Quat, DQuat and Vec3 properties: every ordered pair of 15 unit quaternions - equal, opposite sign, w = 0, orthogonal - as two keyframes x easings Linear/InOut/OutBack x a 1/16 time grid); animator build, advance(dt) for dt in {0,2^-9,1,1e10,1e19,1e20,f32::MAX} each twice, is_ended, set_state; every operation under catch_unwind; oracle: no panic, finite values, values within the keyframe range, and identical result digests from a debug and a release build of the same harness; states = (configuration, keyframe set) cases, transitions = operations"));
+    cov.insert("rule".into(), json!("cycle in {1.4e-45 and 1e-40 (subnormal),MIN_POSITIVE,1e-30,1e-3,1,1e3,1e30,2e38,f32::MAX} x delay in {0,1e-30,1,1e30} x repeat in {None,Times 0,1,2^24,2^24+1,u32::MAX-1,u32::MAX,Infinite} x reverse, restricted to configurations whose total duration is <= f32::MAX (validity bound), x 17 keyframe sets (one resting at exactly +-0 between keyframes; three with a cluster of keyframes on consecutive f32 values inserted out of order; two with keyframes a subnormal distance apart: positions 0 / 1e-40 and 0 / 1.4e-45; two with extreme finite values: +-f32::MAX, +-3e38, i32::MIN..2147483520; three with 257, 513 and 300 keyframes, the last alternating between +-1e36 / +-2e9); operations: build, duration, delay, cycle_duration, repeat, start_with, update (plain and after start_with) at {0, MIN_POSITIVE, delay, every phase boundary +-0,1,2 ulp incl. the last cycles, 32 points inside the first two cycles, 1e30, f32::MAX}; the empty merged timeline (metadata finite); a rotation family (struct with Quat, DQuat and Vec3 properties: every ordered pair of 15 unit quaternions - equal, opposite sign, w = 0, orthogonal - as two keyframes x easings Linear/InOut/OutBack x a 1/16 time grid); animator build, advance(dt) for dt in {0,2^-9,1,1e10,1e19,1e20,f32::MAX} each twice, is_ended, set_state; every operation under catch_unwind; oracle: no panic, finite values, values within the keyframe range, and identical result digests from a debug and a release build of the same harness; states = (configuration, keyframe set) cases, transitions = operations"));
     cov.insert("exhaustive".into(), json!(true));
     cov.insert("debug_release_cases_compared".into(), json!(debug_compared));
     cov.insert("samples".into(), json!([{"timing": cfgs[cfgs.len() / 2].to_json(), "times": times(&cfgs[cfgs.len() / 2]).iter().map(|t| fj(*t)).collect::<Vec<_>>(), "advances": ADVANCES.iter().map(|t| fj(*t)).collect::<Vec<_>>()}]));
